@@ -109,7 +109,7 @@ def load_many(lit: LineIterator) -> Iterator[dict]:
 @document_dump_one("SDF", ["atcoords", "atnums"], ["title", "bonds"])
 def dump_one(f: TextIO, data: IOData):
     """Do not edit this docstring. It will be overwritten."""
-    print(data.title or "Created with IOData", file=f)
+    print("Created with IOData" if data.title is None else data.title, file=f)
     print("", file=f)
     print("", file=f)
     nbond = 0 if data.bonds is None else len(data.bonds)
